@@ -115,6 +115,10 @@ const (
 
 var kindLocal = map[string]string{"iq": "iq", "msg": "message", "pres": "presence"}
 
+// texty: children carry character data of their own ("c-<local>"), which no handler is told
+// about by the specification: it is skipped when the handler's view is compared, but checked
+var texty bool
+
 func renderEl(e mEl, stanzaNS string) string {
 	var b strings.Builder
 	if e.Kind == "top" {
@@ -136,6 +140,10 @@ func renderEl(e mEl, stanzaNS string) string {
 	for _, k := range e.Kids {
 		if k.Sp == "#" {
 			b.WriteString("hello")
+			continue
+		}
+		if texty {
+			fmt.Fprintf(&b, `<%s xmlns="%s">c-%s</%s>`, k.Lo, nsURI(k.Sp, stanzaNS), k.Lo, k.Lo)
 			continue
 		}
 		fmt.Fprintf(&b, `<%s xmlns="%s"/>`, k.Lo, nsURI(k.Sp, stanzaNS))
@@ -177,6 +185,10 @@ func tokSym(tok xml.Token, depth *int, ns string) []string {
 		}
 		return []string{"e", nsSym(t.Name.Space, ns), t.Name.Local}
 	case xml.CharData:
+		if string(t) != "hello" {
+			// the text the handler is shown is not the text of the stanza
+			return []string{"t", "corrupt:" + string(t), ""}
+		}
 		return []string{"t", "", ""}
 	}
 	return []string{fmt.Sprintf("?%T", tok), "", ""}
@@ -187,8 +199,20 @@ func (r *muxRun) readProg(h int, hid string, t xml.TokenReader) {
 	k := r.prog()
 	inv := mInv{H: h, Hid: hid, Seen: [][]string{}}
 	depth := 0
+	last := ""
 	for i := 0; i < k; i++ {
 		tok, err := t.Token()
+		if cd, ok := tok.(xml.CharData); ok && depth >= 2 && err == nil {
+			// text inside a child (texty rendering): not a token of the specification's alphabet
+			if string(cd) != "c-"+last {
+				inv.Seen = append(inv.Seen, []string{"t", "corrupt:" + string(cd), last})
+			}
+			i--
+			continue
+		}
+		if st, ok := tok.(xml.StartElement); ok {
+			last = st.Name.Local
+		}
 		if tok != nil {
 			inv.Seen = append(inv.Seen, tokSym(tok, &depth, r.ns))
 		}
@@ -328,6 +352,22 @@ func (r *muxRun) dispatch(m *mux.ServeMux, e mEl) (wire []mWire, retErr string, 
 		die("driver: cannot parse own rendering %q: %v", text, err)
 	}
 	start := tok.(xml.StartElement)
+	var rd xml.TokenReader = d
+	if sliceEOF {
+		// an xml.TokenReader that is not a decoder: the tokens of the stanza from a slice, the last
+		// one handed out together with io.EOF (which the interface allows)
+		var toks []xml.Token
+		for {
+			t2, e2 := d.Token()
+			if t2 != nil {
+				toks = append(toks, xml.CopyToken(t2))
+			}
+			if e2 != nil {
+				break
+			}
+		}
+		rd = &sliceReader{toks: toks}
+	}
 	var buf bytes.Buffer
 	enc := xml.NewEncoder(&buf)
 	func() {
@@ -339,7 +379,7 @@ func (r *muxRun) dispatch(m *mux.ServeMux, e mEl) (wire []mWire, retErr string, 
 		err := m.HandleXMPP(struct {
 			xml.TokenReader
 			xmlstream.Encoder
-		}{TokenReader: d, Encoder: recEncoder{enc}}, &start)
+		}{TokenReader: rd, Encoder: recEncoder{enc}}, &start)
 		if err != nil {
 			retErr = err.Error()
 		}
@@ -350,6 +390,26 @@ func (r *muxRun) dispatch(m *mux.ServeMux, e mEl) (wire []mWire, retErr string, 
 		retErr += " | unparsable output: " + perr.Error() + ": " + buf.String()
 	}
 	return wire, retErr, panicked
+}
+
+// sliceEOF selects the reader style of dispatch
+var sliceEOF bool
+
+type sliceReader struct {
+	toks []xml.Token
+	i    int
+}
+
+func (r *sliceReader) Token() (xml.Token, error) {
+	if r.i >= len(r.toks) {
+		return nil, io.EOF
+	}
+	t := r.toks[r.i]
+	r.i++
+	if r.i == len(r.toks) {
+		return t, io.EOF
+	}
+	return t, nil
 }
 
 func wireExpected(w []mWire) []mWire {
@@ -414,6 +474,10 @@ func muxMain(args []string) {
 	out := newOut(args[2])
 	defer out.close()
 	nss := []string{stanza.NSClient, stanza.NSServer}
+	// how the stanza reaches the multiplexer: straight from an xml.Decoder (whose character data is only
+	// valid until the next read), from a token slice with the last token delivered together with io.EOF,
+	// and with character data inside the children
+	styles := []string{"decoder", "slice-eof", "texty"}
 	var evals, mism, nontrivial, regs int
 	samples := []interface{}{}
 	distinct := map[string]bool{}
@@ -460,40 +524,44 @@ func muxMain(args []string) {
 				die("vector: %v: %s", err, line)
 			}
 			for _, ns := range nss {
-				evals++
-				obs, retErr, panicked, regPanic := runVec(v, ns)
-				ok := regPanic == "" && panicked == "" && retErr == ""
-				if ok {
-					ok = false
-					for _, a := range v.Alts {
-						if invEqual(a.Inv, obs.Inv, false) && wireEqual(wireExpected(a.Wire), obs.Wire) {
-							ok = true
-							break
+				for _, style := range styles {
+					sliceEOF, texty = style == "slice-eof", style == "texty"
+					evals++
+					obs, retErr, panicked, regPanic := runVec(v, ns)
+					ok := regPanic == "" && panicked == "" && retErr == ""
+					if ok {
+						ok = false
+						for _, a := range v.Alts {
+							if invEqual(a.Inv, obs.Inv, false) && wireEqual(wireExpected(a.Wire), obs.Wire) {
+								ok = true
+								break
+							}
 						}
 					}
-				}
-				if ok && evals%4 == 0 {
-					// determinism: a second run must give the same observation
-					obs2, _, _, _ := runVec(v, ns)
-					if !invEqual(obs.Inv, obs2.Inv, false) || !wireEqual(obs.Wire, obs2.Wire) {
-						ok = false
-						retErr = "non-deterministic: second run differs"
+					if ok && evals%4 == 0 {
+						// determinism: a second run must give the same observation
+						obs2, _, _, _ := runVec(v, ns)
+						if !invEqual(obs.Inv, obs2.Inv, false) || !wireEqual(obs.Wire, obs2.Wire) {
+							ok = false
+							retErr = "non-deterministic: second run differs"
+						}
+					}
+					if len(obs.Inv) > 0 || len(obs.Wire) > 0 {
+						nontrivial++
+					}
+					key := fmt.Sprintf("%d/%v/%v", v.KT, obs.Inv, obs.Wire)
+					if len(distinct) < 200000 {
+						distinct[key] = true
+					}
+					if !ok {
+						mism++
+						out.put(map[string]interface{}{"kind": "vector", "ns": ns, "style": style, "vector": v, "xml": renderEl(v.El, ns),
+							"observed": obs, "error": retErr, "panic": panicked, "register_panic": regPanic})
+					} else if len(samples) < 3 && len(obs.Inv) >= 2 && evals%97 == 0 {
+						samples = append(samples, map[string]interface{}{"vector": v, "style": style, "xml": renderEl(v.El, ns), "observed": obs})
 					}
 				}
-				if len(obs.Inv) > 0 || len(obs.Wire) > 0 {
-					nontrivial++
-				}
-				key := fmt.Sprintf("%d/%v/%v", v.KT, obs.Inv, obs.Wire)
-				if len(distinct) < 200000 {
-					distinct[key] = true
-				}
-				if !ok {
-					mism++
-					out.put(map[string]interface{}{"kind": "vector", "ns": ns, "vector": v, "xml": renderEl(v.El, ns),
-						"observed": obs, "error": retErr, "panic": panicked, "register_panic": regPanic})
-				} else if len(samples) < 3 && len(obs.Inv) >= 2 && evals%97 == 0 {
-					samples = append(samples, map[string]interface{}{"vector": v, "xml": renderEl(v.El, ns), "observed": obs})
-				}
+				sliceEOF, texty = false, false
 			}
 		})
 	}
